@@ -2259,3 +2259,56 @@ def registered_sockets_are_nonblocking(ctx, rule="R-SIB"):
                "serves every fd of that worker)" % gid, g.where(bad[0]) if bad else g.where(sorted(adds)[0]))
     if n < 6:
         ctx.missing(rule, "may::io::sys::add_socket", "registered-socket-is-nonblocking", "expected >= 6 callers of add_socket, found %d" % n)
+
+
+# ------------------------------------------------------------------------------------------------
+# F23: a destructor of the library is not a cancellation point (C09, C12, C14)
+
+def drops_do_not_block_unmasked(ctx, rule="R-EXIT"):
+    """every `Drop::drop` of may that can reach a park (Blocker / SyncBlocker / FastBlocker park, Park::park_timeout) reaches it only behind
+    CancelDisableGuard::new: a Cancel panic out of a destructor skips the rest of the release (RwLockReadGuard::drop left the lock read
+    locked for ever - finding F23; the scoped join and the cqueue drain are masked for the same reason - F6)."""
+    PARK = Call(r"may::sync::blocking::(SyncBlocker|Blocker|FastBlocker)::park|may::park::Park::park_timeout")
+    GUARD = Call(r"may::cancel::CancelDisableGuard::new", transitive=False)
+    an = ctx.an
+    memo = {}
+    # exception table (one field, one reason): a lock that cannot be contended where a destructor takes it, so its lock() never parks there
+    #   Cqueue.selectors - locked only by the owner-side functions add_impl / check_panic / Drop::drop (checked below); the select coroutines
+    #   never touch it, and in Drop the owner has `&mut self`
+    uncontended = set()
+    SEL = "may::cqueue::Cqueue.selectors"
+    lockers = set(g.id.split("::{closure")[0] for g in ctx.prog.fns.values() for pt in g.points()
+                  if g.is_term(pt) and g.node(pt)["t"] == "call" and (callee_name(g.node(pt)) or "").endswith("sync::mutex::Mutex::lock") and receiver_leaf(g, g.node(pt)) == SEL)
+    if lockers and lockers <= {"may::cqueue::Cqueue::add_impl", "may::cqueue::Cqueue::check_panic", "<may::cqueue::Cqueue as std::ops::Drop>::drop"}:
+        uncontended.add(SEL)
+    def unmasked(g, depth=0):
+        """a site in g (or below) that may park without a CancelDisableGuard in force -> (fn, point) or None"""
+        if g.id in memo: return memo[g.id]
+        memo[g.id] = None
+        if depth > 6: return None
+        guards = an.sites(g, GUARD, "must")
+        pre = an.reach(g, [Point(0, 0)], blocked=guards)          # points not dominated by a guard creation
+        for pt in sorted(an.sites(g, PARK, "may")):
+            if pt not in pre: continue
+            t = g.node(pt)
+            if t["t"] == "call" and (callee_name(t) or "").endswith("sync::mutex::Mutex::lock") and receiver_leaf(g, t) in uncontended:
+                continue
+            if direct_match(g, pt, Call(PARK.fn.pattern, transitive=False)):
+                memo[g.id] = (g, pt); return memo[g.id]
+            for h, cert in an.local_targets(g, pt):
+                if an.may(h, PARK):
+                    u = unmasked(h, depth + 1)
+                    if u: memo[g.id] = u; return u
+        return None
+    n = 0
+    for k, f in sorted(ctx.prog.fns.items()):
+        if not (k.startswith("<may::") and k.endswith(" as std::ops::Drop>::drop")): continue
+        if not an.may(f, PARK): continue
+        n += 1
+        ctx.fns_touched.add(k)
+        u = unmasked(f)
+        ctx.ob(rule, k, "drop-not-a-cancellation-point", u is None, "%s can block, but only with the cancel disabled" % k if u is None else
+               "%s can park in %s without a CancelDisableGuard: for a coroutine with a pending cancel the park raises the Cancel panic out of the destructor and the rest of the release is skipped" %
+               (k, u[0].id), u[0].where(u[1]) if u else f.where())
+    if n < 3:
+        ctx.missing(rule, "Drop impls of may", "drop-not-a-cancellation-point", "expected >= 3 Drop impls that can block (RwLockReadGuard, Scope, Cqueue), found %d" % n)
